@@ -351,6 +351,9 @@ func domSliceOf[S ~[]T, T any](d dom[T]) dom[S] {
 				}
 				return make(S, 0, 3)
 			}
+			if rapid.IntRange(0, 5).Draw(rt, "sameArray") == 0 {
+				return a[:len(a):len(a)] // the very same storage, capacity clipped
+			}
 			return rebuild(a, rapid.IntRange(0, 2).Draw(rt, "extraCap"), func(x T) T { return d.alt(rt, x) })
 		},
 		mut: func(rt *rapid.T, a S) (S, bool) {
@@ -359,7 +362,15 @@ func domSliceOf[S ~[]T, T any](d dom[T]) dom[S] {
 				return S{d.gen(rt)}, true
 			}
 			b := rebuild(a, 1, d.clone)
-			op := rapid.IntRange(0, 4).Draw(rt, "op")
+			op := rapid.IntRange(0, 6).Draw(rt, "op")
+			// 5, 6: a shorter VIEW of a itself (same backing array): a prefix a[:p] starts at the same element,
+			// a suffix a[p:] ends at the same element; equal storage must not be taken for equal values
+			if op == 5 || (op == 6 && n < 2) {
+				return a[:rapid.IntRange(0, n-1).Draw(rt, "prefixLen")], true
+			}
+			if op == 6 {
+				return a[rapid.IntRange(1, n-1).Draw(rt, "suffixFrom"):], true
+			}
 			if op <= 2 {
 				p := rapid.IntRange(0, n-1).Draw(rt, "pos")
 				if e, ok := d.mut(rt, a[p]); ok {
